@@ -129,7 +129,10 @@ def variant(base, step_i, client, plan, tag, rng, prop):
             # end the transaction the fault interrupted (if any), then refresh: the property promises recovery
             # "after a refresh"
             rec.append({"op": "rollback_any", "c": client})
-            rec.append({"op": "refresh", "c": client, "perm": rng.randrange(6)})
+            if rng.random() < 0.6:
+                rec.append({"op": "refresh", "c": client, "perm": rng.randrange(6)})
+            # else: the connection carries on without a refresh - a failed statement must not have left anything
+            # behind on it, and a later write that reports success must be readable by every later open
         rec += [{"op": "rows", "c": client},
                 {"op": "open", "c": "nn1", "mode": "ro", "perm": rng.randrange(6)}]
         if client not in ("x",) and target.get("mode") != "ro":
